@@ -5,7 +5,7 @@ import os
 from harness._h import NoTracing, known, opened_auditwall, pick
 from vlib import corpus, gen
 
-MIXINS = "class MixA:\n    pass\n"
+MIXINS = "class MixA:\n    pass\n\n\nclass MixB:\n    pass\n"
 SCAL = "def parse_d(v):\n    return v\ndef ser_d(v):\n    return v\n"
 
 INPUTS = []  # (name, sdl, queries, extra config, extra files, has_subscription)
@@ -24,7 +24,7 @@ INPUTS.append(("roots",
                "query Me($s: Sort, $by: [Axis!]) { me(sort: $s, by: $by) { id name boss { boss { id } } kind } }\nmutation Ren($n: String!) { rename(n: $n) { id } }\nsubscription Ticks($n: Int) { ticks(n: $n) }\nsubscription People { people { id name } }", {}, {}, True))
 INPUTS.append(("scalars_mixins",
                "scalar Date\nscalar Blob\nscalar Stamp\nscalar Money\ntype Query { when(d: Date, b: Blob): Ev range(stamps: [Stamp!], grid: [[Money]]): Int }\ntype Ev { at: Date! until: [Date] raw: Blob loc: Loc near(d: Date, s: Stamp, m: [Money!]): Ev }\ntype Loc { lat: Float! lon: Float! }\ninput Win { from: Date!, to: Date }\ntype Mutation { book(w: Win!): Ev }",
-               "query When($d: Date, $b: Blob) { when(d: $d, b: $b) { at until raw loc @mixin(from: \".mixins\", import: \"MixA\") { lat lon } ...EvF } }\n"
+               "query When($d: Date, $b: Blob) { when(d: $d, b: $b) { at until raw loc @mixin(from: \".mixins\", import: \"MixA\") @mixin(from: \".mixins\", import: \"MixB\") { lat lon } ...EvF } }\n"
                "mutation Book($w: Win!) { book(w: $w) { at } }\nfragment EvF on Ev @mixin(from: \".mixins\", import: \"MixA\") { at }\n"
                "query Range($stamps: [Stamp!], $grid: [[Money]]) { range(stamps: $stamps, grid: $grid) }",
                {"scalars": {"Date": {"type": "str", "parse": ".scal.parse_d", "serialize": ".scal.ser_d"}, "Stamp": {"type": "datetime.datetime"}, "Money": {"type": "decimal.Decimal", "serialize": ".scal.ser_d"}},
